@@ -17,11 +17,13 @@ REQUIRED_THEOREMS = [
     'C14_irrelevant_rows', 'C14_irrelevant_rows_insert', 'C14_foreign_columns', 'C14_irrelevant_rows_ids',
     'C14_id_types', 'C14_id_types_int_str', 'C14_id_types_int_flt', 'C14_set_data',
     'C14_sorted_rows', 'C14_row_order_irrelevant', 'C14_posterior_irrelevant_rows',
+    'C14_data_follows_outputs', 'C14_map_order_irrelevant', 'C14_observable_types',
     'C14_posterior', 'C14_posterior_exists', 'C14_posterior_of_frame', 'C14_prefix_posterior_partial',
     'C14_unsorted_counterexample', 'C14_single_individual_counterexample', 'C14_selector_counterexample']
 RULE = ('long-format frames with 1-5 (sometimes 11) individuals (int / float / str / mixed-object ID columns, IDs '
         'that coincide as strings, IDs whose string order differs from their order of appearance), 1-3 outputs '
-        'mapped to observables (explicit / identity / automatic map), unbalanced and tied times, rows with missing '
+        'mapped to observables (explicit / identity / automatic map; explicit maps written in any order, with extra '
+        'keys, observable names and map values as numbers or strings), unbalanced and tied times, rows with missing '
         'value / time, unrelated observables, foreign columns, renamed keys, arbitrary index labels (permuted, '
         'strided, duplicated), numbers given as text, categorical / nullable column dtypes, dose rows with / '
         'without duration, covariate rows; layouts: individual blocks, random interleaving, globally time-sorted, '
@@ -34,7 +36,8 @@ RULE = ('long-format frames with 1-5 (sometimes 11) individuals (int / float / s
         '#outputs, population blocks, dosing mode, fixed, set-up order)')
 ASSUMPTIONS = [
     'the ID column has no missing cells; float IDs have integer values below 1e15 (printed as "n.0")',
-    'observable names are strings (a numeric observable column is the recorded finding C14-observable-dtype)',
+    'observable cells and the values of the name maps are stringified cell by cell (pandas converts a categorical '
+    'column of numbers with missing cells via floats: recorded finding C14-observable-categorical-missing)',
     'times, doses and durations are non-negative doubles; durations are positive',
     'pandas: astype("string"), to_numeric, unique() = order of first appearance, boolean masks keep frame '
     'order, comparisons with <NA> select nothing; myokit.Protocol.add keeps events ordered by start and '
@@ -181,13 +184,20 @@ def gen_case(rng, layout=None, force=None):
     junk = rng.random() < 0.6
     if map_mode == 'auto' and (n_out > 1 or junk or cov_names):
         map_mode = 'explicit'
+    # observable names: strings, or numbers (stringified by the controller: '7', never compared as numbers)
+    numeric_obs = map_mode != 'identity' and rng.random() < 0.25
     if map_mode == 'identity':
         obs_of = {o: o for o in outputs}
     else:
-        names = ['conc', 'biomarker x', 'Tumour_Volume']
+        names = [7, 12, 3] if numeric_obs else ['conc', 'biomarker x', 'Tumour_Volume']
+        # which observable an output is mapped to has nothing to do with the position of the output
+        names = [names[int(k)] for k in rng.permutation(3)]
         obs_of = {o: names[k] for k, o in enumerate(outputs)}
-    cov_mode = 'identity' if rng.random() < 0.5 else 'explicit'
-    cov_obs = {c: (c if cov_mode == 'identity' else 'cov ' + c.lower()) for c in cov_names}
+    cov_mode = 'explicit' if numeric_obs else ('identity' if rng.random() < 0.5 else 'explicit')
+    cov_obs = {c: (c if cov_mode == 'identity' else ({'Age': 41, 'Sex': 42}[c] if numeric_obs else 'cov ' + c.lower()))
+               for c in cov_names}
+    junk_name = 99 if numeric_obs else 'unrelated'
+    dose_label = 55 if numeric_obs else 'dose event'
     # dosing mode
     dosing = force.get('dosing', ['full', 'full', 'nodur', 'nokey', 'unsupported', 'nocolumn'][int(rng.integers(6))])
     user_regimen = None
@@ -226,7 +236,7 @@ def gen_case(rng, layout=None, force=None):
                     rows.insert(int(rng.integers(len(rows) + 1)), [None, None, obs_of[o], float(rng.uniform(0.3, 4.0)), None, None])
             lists.append(rows)
         if junk:
-            lists.append([[None, float(rng.choice(POOL)), 'unrelated', float(rng.uniform(5, 9)), None, None]
+            lists.append([[None, float(rng.choice(POOL)), junk_name, float(rng.uniform(5, 9)), None, None]
                           for _ in range(int(rng.integers(0, 3)))])
         if dosing != 'nocolumn':
             k = int(rng.integers(0, 4))
@@ -234,7 +244,7 @@ def gen_case(rng, layout=None, force=None):
             drows = []
             for t in dts:
                 du = [0.25, 0.5, 1.0, None][int(rng.integers(4))]
-                ob = None if rng.random() < 0.7 else 'dose event'
+                ob = None if rng.random() < 0.7 else dose_label
                 drows.append([None, t, ob, None, float(rng.choice([0.5, 1.0, 2.0, 3.0])), du])
             if rng.random() < 0.2:   # dose without time: ignored
                 drows.append([None, None, None, None, 1.0, 0.5])
@@ -263,7 +273,7 @@ def gen_case(rng, layout=None, force=None):
     else:
         rows = [r for p in per_ind for r in p]
         rows = [rows[int(k)] for k in rng.permutation(len(rows))]
-    if not rows or not any(r[2] in obs_of.values() for r in rows):
+    if not rows or not any(r[2] in list(obs_of.values()) for r in rows):
         # the mapped observable must occur at least once in the frame (otherwise set_data rejects the map)
         rows.append([rid(nums[0]), 1.0, obs_of[outputs[0]], 1.5, None, None])
     if map_mode == 'auto' and len({r[2] for r in rows if r[2] is not None}) != 1:
@@ -294,6 +304,7 @@ def gen_case(rng, layout=None, force=None):
         'map_mode': map_mode, 'obs_of': obs_of, 'pop': pop, 'cov_obs': cov_obs, 'cov_mode': cov_mode,
         'dosing': dosing, 'user_regimen': user_regimen, 'fixed_bottom': fixed_bottom, 'fixed_top': fixed_top,
         'order': order, 'eval_seed': int(rng.integers(1 << 30)), 'model': 'toy',
+        'map_seed': int(rng.integers(1 << 30)), 'numeric_obs': bool(numeric_obs),
         'frame_mode': [None, None, None, None, 'numeric_as_string', 'column_dtypes'][int(rng.integers(6))],
         'pre_set': bool(rng.random() < 0.15)}
 
@@ -352,6 +363,9 @@ def make_frame(case):
             df[keys['id_key']] = df[keys['id_key']].astype('Int64' if crng.random() < 0.5 else 'category')
         elif len(kinds) == 1:
             df[keys['id_key']] = df[keys['id_key']].astype('category')
+        # (includes a categorical column of NUMBERS with missing cells, which pandas stringifies through
+        #  floats — '7.0' — in astype("string") but not in astype(str): finding
+        #  C14-observable-categorical-missing, repaired; also probed in observable_dtype)
         df[keys['obs_key']] = df[keys['obs_key']].astype('category')
         df[keys['time_key']] = df[keys['time_key']].astype('Float64')
     return df
@@ -371,12 +385,42 @@ def has_dose(case):
     return case['dosing'] in ('full', 'nodur')
 
 
-def wire_config(case):
-    om = None if case['map_mode'] in ('auto',) else [[o, case['obs_of'][o]] for o in case['outputs']]
-    if case['map_mode'] == 'identity' and case.get('pass_identity_none', False):
-        om = None
+def user_maps(case):
+    """output_observable_dict / covariate_dict as the user writes them: a Python dict, i.e. entries in ANY order
+    (not the order of mechanistic_model.outputs()), possibly with keys that are no outputs / covariates, values
+    numbers or strings. Returns two lists of [key, value] (insertion order) or None (map not passed)."""
+    seed = case.get('map_seed')
+    rng = np.random.default_rng(seed if seed is not None else 0)
+
+    def dress(items, extra_keys):
+        items = [list(it) for it in items]
+        if seed is None:
+            return items
+        for it in items:                    # a number may also be written as its string
+            if isinstance(it[1], int) and rng.random() < 0.3:
+                it[1] = str(it[1])
+        for k in extra_keys:
+            if rng.random() < 0.35:
+                items.append([k, items[int(rng.integers(len(items)))][1] if rng.random() < 0.5 else 'nowhere'])
+        return [items[int(k)] for k in rng.permutation(len(items))]
+    om = None
+    if case['map_mode'] == 'explicit' or (case['map_mode'] == 'identity' and not case.get('pass_identity_none')):
+        om = dress([[o, case['obs_of'][o]] for o in case['outputs']], ['out7', 'not an output'])
     cov_names = [c for b in (case['pop'] or []) if b[2] for c in b[2]]
-    cm = None if (case['cov_mode'] == 'identity' or not cov_names) else [[c, case['cov_obs'][c]] for c in cov_names]
+    cm = None
+    if cov_names and case['cov_mode'] == 'explicit':
+        cm = dress([[c, case['cov_obs'][c]] for c in cov_names], ['Weight'])
+    return om, cm
+
+
+def okey(x):
+    """string form of an observable cell"""
+    return None if x is None else str(x)
+
+
+def wire_config(case):
+    om, cm = user_maps(case)
+    cov_names = [c for b in (case['pop'] or []) if b[2] for c in b[2]]
     return [case['outputs'], om, cov_names, cm, has_dose(case), case['dosing'] == 'full', case['pop'] is not None]
 
 
@@ -415,11 +459,11 @@ def make_prior(n, seed):
 def set_data_kwargs(case):
     kw = dict(case['keys'] or {})
     keys = case['keys'] or DEFAULT_KEYS
-    if case['map_mode'] == 'explicit' or (case['map_mode'] == 'identity' and not case.get('pass_identity_none')):
-        kw['output_observable_dict'] = dict(case['obs_of'])
-    cov_names = [c for b in (case['pop'] or []) if b[2] for c in b[2]]
-    if cov_names and case['cov_mode'] == 'explicit':
-        kw['covariate_dict'] = dict(case['cov_obs'])
+    om, cm = user_maps(case)
+    if om is not None:
+        kw['output_observable_dict'] = {k: v for k, v in om}
+    if cm is not None:
+        kw['covariate_dict'] = {k: v for k, v in cm}
     if case['dosing'] in ('nokey', 'nocolumn'):
         kw['dose_key'] = None
         kw['dose_duration_key'] = None
@@ -473,8 +517,8 @@ def build_controller(chi, case, frame=None):
 # ----------------------------------------------------------------------------------------------
 def spec_of(ctx, case):
     cov_names = [c for b in (case['pop'] or []) if b[2] for c in b[2]]
-    obs = [case['obs_of'][o] for o in case['outputs']]
-    cobs = [case['cov_obs'][c] for c in cov_names]
+    obs = [okey(case['obs_of'][o]) for o in case['outputs']]
+    cobs = [okey(case['cov_obs'][c]) for c in cov_names]
     ids, per = ctx.model('C14.spec', has_dose(case), case['dosing'] == 'full', wire_rows(case), obs, cobs)
     out = []
     for i, (pairs, doses, covs) in zip(ids, per):
@@ -485,8 +529,8 @@ def spec_of(ctx, case):
 def dataset_valid(case, spec):
     """does the frame describe a posterior at all?  (every mapped observable occurs in the frame, one
     covariate value per individual, no two doses of one individual at the same time)"""
-    present = {r[2] for r in case['rows'] if r[2] is not None}
-    if any(b not in present for b in case['obs_of'].values()):
+    present = {okey(r[2]) for r in case['rows'] if r[2] is not None}
+    if any(okey(b) not in present for b in case['obs_of'].values()):
         return False
     for s in spec:
         if any(len(v) != 1 for v in s['covs']):
@@ -575,7 +619,8 @@ def run_case(ctx, chi, case, label='gen'):
     n_ids = len(spec)
     valid = dataset_valid(case, spec)
     ordered = time_ordered(spec)
-    has_missing = any(r[3] is None or r[1] is None for r in case['rows'] if r[2] in case['obs_of'].values())
+    mapped_keys = {okey(b) for b in case['obs_of'].values()}
+    has_missing = any(r[3] is None or r[1] is None for r in case['rows'] if okey(r[2]) in mapped_keys)
     nontriv = n_ids >= 2 and (case['layout'] in ('interleaved', 'shuffled', 'timesorted') or has_dose(case)
                               or bool(case['cov_obs']) or has_missing)
     ckey = '%s/%s/%d/%d/%s/%s/%s/%s' % (
@@ -891,6 +936,11 @@ def transform(rng, case, kind):
         t['frame_mode'] = kind
     elif kind == 'set_data_twice':
         t['pre_set'] = True
+    elif kind == 'map_order':
+        # the same maps written in another order / with other extra entries / numbers as strings
+        if user_maps(t) == (None, None):
+            return None
+        t['map_seed'] = int(rng.integers(1 << 30))
     elif kind == 'renamed_keys':
         t['keys'] = None if t['keys'] else {'id_key': '#', 'time_key': 'TIME', 'obs_key': 'OBS', 'value_key': 'VAL',
                                             'dose_key': 'AMT', 'dose_duration_key': 'DUR'}
@@ -902,7 +952,7 @@ def check_invariance(ctx, chi, case, rng):
     if base is None:
         return
     for kind in ('unrelated_rows', 'foreign_columns', 'id_dtype', 'id_relabel', 'renamed_keys', 'shuffle_rows',
-                 'numeric_as_string', 'column_dtypes', 'set_data_twice'):
+                 'numeric_as_string', 'column_dtypes', 'set_data_twice', 'map_order'):
         t = transform(rng, case, kind)
         if t is None:
             continue
@@ -1016,6 +1066,17 @@ def observable_dtype(ctx, chi):
         ('automatic map', df[df.Observable == 7], False, {}, [2]),
         ('covariate map', dfc, True, {'output_observable_dict': {'out0': 7}, 'covariate_dict': {'Age': 3}}, [2, 2]),
     ]
+    dfn = pd.DataFrame({'ID': [1, 1, 2, 2, 1], 'Time': [1.0, 2.0, 1.0, 2.0, 0.0],
+                        'Observable': pd.Series([7, 7, 7, 8, np.nan], dtype=object).astype('category'),
+                        'Value': [1.0, 2.0, 3.0, 4.0, np.nan]})
+    try:
+        n = n_obs(dfn, False, output_observable_dict={'out0': 7})
+        ctx.spec('C14.observable_dtype/categorical_with_missing', n == [2],
+                 {'probe': 'categorical numeric observable column with a missing cell', 'observable_column': [7, 7, 7, 8, None],
+                  'maps': {'output_observable_dict': {'out0': 7}}}, {'n_observations': n, 'expected': [2]})
+    except Exception as e:  # noqa
+        ctx.spec('C14.observable_dtype/categorical_with_missing', False,
+                 {'probe': 'categorical numeric observable column with a missing cell'}, {'raised': repr(e)[:200]})
     for name, frame, pop, kw, want in probes:
         inp = {'probe': name, 'observable_column': [int(v) for v in frame['Observable']],
                'maps': {k: {a: int(b) for a, b in v.items()} for k, v in kw.items()}}
@@ -1056,16 +1117,18 @@ def pkpd_cases(ctx, chi, n):
         case['fixed_top'] = None
         if case['pop'] is not None:
             case['pop'] = [['pooled', n_mech, None], ['lognormal', 1, None]]
+            drop = list(case['cov_obs'].values())
             case['cov_obs'] = {}
-            case['rows'] = [r for r in case['rows'] if r[2] not in ('Age', 'Sex', 'cov age', 'cov sex')]
+            case['rows'] = [r for r in case['rows'] if r[2] not in drop]
         spec = spec_of(ctx, case)
         if not dataset_valid(case, spec) or not time_ordered(spec) or (case['pop'] and len(spec) < 2):
             continue
-        # no overlapping infusions (myokit's pacing system rejects them at run time), no empty individual
+        # no overlapping infusions (myokit's pacing system rejects them at run time); individuals without any
+        # measurement are kept (3790485: their likelihood is the empty sum)
         bad = False
         for s in spec:
             ev = s['doses']
-            if any(a[1] + a[2] > b[1] for a, b in zip(ev[:-1], ev[1:])) or not any(len(p) for p in s['pairs']):
+            if any(a[1] + a[2] > b[1] for a, b in zip(ev[:-1], ev[1:])):
                 bad = True
         if bad:
             continue
